@@ -452,6 +452,17 @@ func c05Catalogue(c *core.Ctx) []*c05Region {
 	loop("generic", 3e-9, 4, false)
 	add(c05LoopRegion("loop(cell corner,2)", lattice.GeoCellVerts(s2.CellFromCellID(corner.Parent(2))), corner.Parent(2).Point(), pe))
 	add(c05LoopRegion("loop(wedge)", lattice.GeoWedge(0.3, 1.1, 20), lattice.GeoPtLL(0.1, 0.7), pe))
+	// a quadrilateral at the cube corner (1,1,1) with vertices on faces 0 and 1 only: its edge a-b cuts
+	// across the corner of face 2 without having a vertex there (and the same one face further round)
+	cut := func(x, y, z float64) s2.Point { return s2.PointFromCoords(x, y, z) }
+	ccw := func(v []s2.Point) []s2.Point {
+		if s2.RobustSign(v[0], v[1], v[2]) < 0 {
+			return lattice.GeoReverse(v)
+		}
+		return v
+	}
+	add(c05LoopRegion("loop(corner-cut through face 2)", ccw([]s2.Point{cut(1, 0.8, 0.97), cut(0.8, 1, 0.97), cut(0.8, 1, 0.5), cut(1, 0.8, 0.5)}), cut(0.9, 0.9, 0.75), pe))
+	add(c05LoopRegion("loop(corner-cut through face 0)", ccw([]s2.Point{cut(0.97, 1, 0.8), cut(0.97, 0.8, 1), cut(0.5, 0.8, 1), cut(0.5, 1, 0.8)}), cut(0.75, 0.9, 0.9), pe))
 	add(c05LoopRegion("loop(empty)", []s2.Point{s2.PointFromCoords(0, 0, 1)}, ctr["face"], pe))
 	add(c05LoopRegion("loop(full)", []s2.Point{s2.PointFromCoords(0, 0, -1)}, ctr["face"], pe))
 	if big {
